@@ -153,6 +153,9 @@ pub enum Op {
     /// nullable=false: `id * 2` (NOT NULL); nullable=true: `w * 2` (w is nullable)
     AddColumn { name: String, nullable: bool },
     DropColumn { name: String },
+    /// `Operation::DataReplacement` through `Dataset::commit`: the (single, full-schema) data file
+    /// of initial fragment `frag` (rows `ids`, physical order) is replaced by a file with new `v`
+    ReplaceV { frag: u64, ids: Vec<i64>, salt: u64 },
 }
 
 impl Op {
@@ -173,6 +176,7 @@ impl Op {
             Op::Restore { .. } => "restore",
             Op::AddColumn { .. } => "add_column",
             Op::DropColumn { .. } => "drop_column",
+            Op::ReplaceV { .. } => "data_replacement",
         }
     }
     pub fn retries(&self) -> Option<u32> {
@@ -216,6 +220,7 @@ impl Op {
             Op::Restore { version } => json!({"op":"restore","version":version}),
             Op::AddColumn { name, nullable } => json!({"op":"add_column","name":name,"expr": if *nullable {"w * 2"} else {"id * 2"}}),
             Op::DropColumn { name } => json!({"op":"drop_column","name":name}),
+            Op::ReplaceV { frag, ids, salt } => json!({"op":"data_replacement","frag":frag,"ids":ids,"salt":salt}),
         }
     }
     /// does the op address row `id` through a predicate / key (not counting fresh inserts)?
@@ -238,6 +243,9 @@ pub struct Model {
     pub rows: BTreeMap<i64, Row>,
     pub config: BTreeMap<String, String>,
     pub indices: BTreeSet<String>,
+    /// ids whose current row image no longer lives in its initial fragment's data file
+    /// (rewritten by update / full merge_insert); data replacement does not reach them
+    pub moved: BTreeSet<i64>,
 }
 
 /// What an op did to the model: ids whose row image was removed or replaced.
@@ -254,6 +262,7 @@ impl Model {
             rows: BTreeMap::new(),
             config: BTreeMap::new(),
             indices: BTreeSet::new(),
+            moved: BTreeSet::new(),
         }
     }
     fn col(&self, name: &str) -> Option<usize> {
@@ -305,6 +314,7 @@ impl Model {
                     if let (Some(k), Some(w)) = (kw, set_w) {
                         r[k] = Cell::Int(*w as i128);
                     }
+                    self.moved.insert(*id);
                     eff.modified.insert(*id);
                 }
             }
@@ -318,6 +328,7 @@ impl Model {
                                 r[k] = src[b].clone();
                             }
                         }
+                        self.moved.insert(*id);
                         eff.modified.insert(*id);
                     } else if *insert {
                         let r = self.layout(&src);
@@ -352,6 +363,7 @@ impl Model {
                 self.rows.clear();
                 self.cols = BASE_COLS.iter().map(|s| s.to_string()).collect();
                 self.indices.clear();
+                self.moved.clear();
                 for id in ids {
                     self.rows.insert(*id, gen_row(*id, *salt));
                     eff.inserted.insert(*id);
@@ -389,6 +401,27 @@ impl Model {
                     r.remove(k);
                 }
             }
+            Op::ReplaceV { ids, salt, .. } => {
+                // the whole file is replaced: id/w/s keep their initial values, v is new
+                for id in ids {
+                    if self.moved.contains(id) {
+                        continue;
+                    }
+                    if let Some(r) = self.rows.get_mut(id) {
+                        let init = gen_row(*id, 0);
+                        let newv = gen_row(*id, *salt)[1].clone();
+                        for (k, c) in self.cols.clone().iter().enumerate() {
+                            match c.as_str() {
+                                "v" => r[k] = newv.clone(),
+                                "w" => r[k] = init[2].clone(),
+                                "s" => r[k] = init[3].clone(),
+                                _ => {}
+                            }
+                        }
+                        eff.modified.insert(*id);
+                    }
+                }
+            }
         }
         Ok(eff)
     }
@@ -405,6 +438,7 @@ pub fn err_class(e: &lance::Error) -> &'static str {
         E::CommitConflict { .. } => "CommitConflict",
         E::TooMuchWriteContention { .. } => "TooMuchWriteContention",
         E::InvalidInput { .. } => "InvalidInput",
+        E::InvalidTableLocation { message } if message.starts_with("harness-reject") => "InvalidInput",
         E::NotSupported { .. } => "NotSupported",
         E::SchemaMismatch { .. } => "SchemaMismatch",
         E::Internal { .. } => "Internal",
@@ -425,6 +459,9 @@ pub fn err_class(e: &lance::Error) -> &'static str {
 }
 
 /// bound on Lance's own retry loop (keeps the tail of a run short; expiry is a conflict-class error)
+/// wall-clock watchdog of one history; firing = inconclusive
+pub const WATCHDOG: Duration = Duration::from_secs(90);
+
 pub const RETRY_TIMEOUT: Duration = Duration::from_secs(12);
 
 pub fn is_conflict_class(c: &str) -> bool {
@@ -579,6 +616,62 @@ pub async fn exec_op(ds: Dataset, actor: &Actor, op: &Op) -> lance::Result<Optio
             let mut ds = ds;
             ds.drop_columns(&[name.as_str()]).await?;
             Ok(Some(ds.manifest().version))
+        }
+        Op::ReplaceV { frag, ids, salt } => {
+            use lance::dataset::transaction::{DataReplacementGroup, Operation};
+            // our own rejection of a target that is outside the op's precondition
+            let invalid = |m: &str| lance::Error::InvalidTableLocation { message: format!("harness-reject: {m}") };
+            let f = ds
+                .get_fragment(*frag as usize)
+                .ok_or_else(|| invalid("data replacement: fragment not present at the read version"))?;
+            let meta = f.metadata().clone();
+            if meta.files.len() != 1
+                || meta.files[0].fields != vec![0, 1, 2, 3]
+                || meta.physical_rows != Some(ids.len())
+                || ds.schema().fields.len() != 4
+            {
+                return Err(invalid("data replacement: fragment is not in its initial single-file layout"));
+            }
+            let rows: Vec<Row> = ids
+                .iter()
+                .map(|i| {
+                    let mut r = gen_row(*i, 0);
+                    r[1] = gen_row(*i, *salt)[1].clone();
+                    r
+                })
+                .collect();
+            let batch = rows_to_batch(&rows, &BASE_COLS);
+            let name = format!("{}.lance", uuid::Uuid::new_v4());
+            let path = ds.data_dir().child(name.as_str());
+            let writer = ds.object_store().create(&path).await?;
+            let version = ds.manifest().data_storage_format.lance_file_version()?;
+            let mut fw = lance_file::writer::FileWriter::try_new(
+                writer,
+                ds.schema().clone(),
+                lance_file::writer::FileWriterOptions {
+                    format_version: Some(version),
+                    ..Default::default()
+                },
+            )?;
+            fw.write_batch(&batch).await?;
+            fw.finish().await?;
+            let mut new_file = meta.files[0].clone();
+            new_file.path = name;
+            new_file.file_size_bytes = Default::default();
+            let rv = ds.manifest().version;
+            let out = Dataset::commit(
+                WriteDestination::Dataset(Arc::new(ds)),
+                Operation::DataReplacement {
+                    replacements: vec![DataReplacementGroup(*frag, new_file)],
+                },
+                Some(rv),
+                Some(actor.store_params()),
+                actor.commit_handler.clone(),
+                actor.session.clone(),
+                false,
+            )
+            .await?;
+            Ok(Some(out.manifest().version))
         }
     }
 }
@@ -1355,7 +1448,7 @@ where
     Fut: std::future::Future<Output = ()>,
 {
     let next = AtomicU64::new(0);
-    let threads = std::env::var("E_CONC_THREADS").ok().and_then(|s| s.parse().ok()).unwrap_or(threads);
+    let threads = std::env::var("VERIF_THREADS").ok().and_then(|s| s.parse().ok()).unwrap_or(threads);
     std::thread::scope(|s| {
         for _ in 0..threads {
             s.spawn(|| {
